@@ -39,6 +39,9 @@ REQUIRED_COUNTERS = ['on_threshold_eq', 'on_threshold_noeq', 'decimal_threshold'
                      'alternative', 'bracketer', 'bracketer_property', 'openlist_jump', 'openlist_fill',
                      'openlist_overflow', 'openlist_precedence', 'openlist_no_threshold', 'openlist_tie',
                      'quota_by_name', 'quota_by_callable', 'quota_fraction_one', 'quota_fraction_half',
+                     # caller-written quota callables (parameters not named votes / seats), per shape and per class
+                     'quota_by_def', 'quota_by_lambda', 'quota_by_posonly', 'quota_by_object', 'quota_by_partial',
+                     'quota_user:openlist', 'quota_user:quota_selector', 'quota_user:tiebreak',
                      'take_higher', 'quota_selector', 'rel_boundary_5pct',
                      # generator audit (harness/GENERATOR_CHECKLIST.md)
                      'float_threshold', 'float_dyadic', 'float_nondyadic', 'float_counts', 'float_jump_fraction',
@@ -780,11 +783,56 @@ def build_quota(case, key='quota'):
     q = case.get(key)
     if q is None:
         return None
+    mode = case.get('_quota_mode')
     if q.startswith('const:'):
-        return vq.constant(Fraction(q[6:]))
-    if case.get('_quota_mode') == 'callable':
+        return _user_quota(vq.constant(Fraction(q[6:])), mode)
+    if mode in USER_QUOTA_MODES:
+        return _user_quota(getattr(vq, q), mode)
+    if mode == 'callable':
         return getattr(vq, q)
     return q
+
+
+# how a quota function is handed to QuotaSelector / ThresholdOpenList / the QuotaSelector inside ListOrderTieBreaker:
+# 'name' = registered name, 'callable' = the library function object, and caller-written callables of two positional
+# arguments (total votes, seats) whose parameters are NOT called votes / seats: a def, a lambda, a def with
+# positional-only parameters, an object with __call__, a functools.partial.  The documented type is
+# Callable[[int, int], Number]: any of them must give the result of the library function it stands for.
+USER_QUOTA_MODES = ['def', 'lambda', 'posonly', 'object', 'partial']
+QUOTA_MODES = ['name', 'callable'] + USER_QUOTA_MODES
+
+
+def _user_quota(base, mode):
+    """a caller-written callable equivalent to the library quota `base` (called positionally), in the shape `mode`"""
+    if mode == 'def':
+        def user_quota(n_votes, n_seats):
+            return base(n_votes, n_seats)
+        return user_quota
+    if mode == 'lambda':
+        return lambda t, s: base(t, s)
+    if mode == 'posonly':
+        def user_quota_posonly(total, mandates, /):
+            return base(total, mandates)
+        return user_quota_posonly
+    if mode == 'object':
+        class UserQuota:
+            def __call__(self, ballots, places):
+                return base(ballots, places)
+        return UserQuota()
+    if mode == 'partial':
+        import functools
+
+        def scaled(factor, ballots, places):
+            return base(ballots, places) * factor
+        return functools.partial(scaled, 1)
+    return base
+
+
+def pick_quota_mode(rng):
+    """half of the time by name / library function object (as before), else one of the caller-written shapes"""
+    if rng.random() < 0.5:
+        return rng.choice(['name', 'callable'])
+    return rng.choice(USER_QUOTA_MODES)
 
 
 class AliasError(Exception):
@@ -1099,26 +1147,42 @@ def _describe(case):
         return (f"{_py_sel(case['sel'])}.evaluate({votes}{extra})   # members={case.get('members')} "
                 f"minority={case.get('props')} candidate classes={case.get('_styles')}")
 
+    pre = []     # definitions of a caller-written quota callable, printed before the call
+
     def q(name):
         if name is None:
             return 'None'
+        mode = case.get('_quota_mode')
+        lib = f"quota.constant(Fraction('{name[6:]}'))" if name.startswith('const:') else f'quota.{name}'
+        if mode in USER_QUOTA_MODES:
+            pre.append({'def': f'def user_quota(n_votes, n_seats): return {lib}(n_votes, n_seats)',
+                        'lambda': f'user_quota = lambda t, s: {lib}(t, s)',
+                        'posonly': f'def user_quota(total, mandates, /): return {lib}(total, mandates)',
+                        'object': f'class UserQuota:\n    def __call__(self, ballots, places): return {lib}(ballots, places)\n'
+                                  'user_quota = UserQuota()',
+                        'partial': f'user_quota = functools.partial(lambda factor, ballots, places: {lib}(ballots, places) * factor, 1)'
+                        }[mode] + '\n')
+            return 'user_quota'
         if name.startswith('const:'):
-            return f"quota.constant(Fraction('{name[6:]}'))"
-        return f'quota.{name}' if case.get('_quota_mode') == 'callable' else repr(name)
+            return lib
+        return lib if mode == 'callable' else repr(name)
     if op == 'quota_selector':
-        return (f"QuotaSelector({q(case['quota'])}, accept_equal={case['accept_equal']}, "
-                f"on_more_over_quota={case['on_more']!r}).evaluate({votes}, {case['n']})")
+        qs = q(case['quota'])
+        return ''.join(pre) + (f"QuotaSelector({qs}, accept_equal={case['accept_equal']}, "
+                               f"on_more_over_quota={case['on_more']!r}).evaluate({votes}, {case['n']})")
     clist = [f'c{i}' for i in case['list']]
     if op == 'openlist':
         jf = 'None' if case.get('jump_fraction') is None else _py_num(case['jump_fraction'], case.get('_jftype', 'F'))
-        return (f"ThresholdOpenList(jump_fraction={jf}, quota_function={q(case.get('quota'))}, "
+        qs = q(case.get('quota'))
+        return ''.join(pre) + (
+                f"ThresholdOpenList(jump_fraction={jf}, quota_function={qs}, "
                 f"quota_fraction={_py_num(case['quota_fraction'], case.get('_qftype', 'F'))}, take_higher={case['take_higher']}, "
                 f"accept_equal={case['accept_equal']}, list_precedence={case['list_precedence']})"
                 f".evaluate({votes}, {case['n']}, {clist})")
     if op == 'tiebreak':
         inner = 'Plurality()' if case['inner'] == 'plurality' else \
             f"QuotaSelector({q(case['inner'])}, accept_equal={case['accept_equal']}, on_more_over_quota='select')"
-        return f"ListOrderTieBreaker({inner}).evaluate({votes}, {case['n']}, {clist})"
+        return ''.join(pre) + f"ListOrderTieBreaker({inner}).evaluate({votes}, {case['n']}, {clist})"
     return json.dumps(strip_case(case))
 
 
@@ -1473,7 +1537,7 @@ def gen_quota_selector(rng, huge=False):
     else:
         vals = split_total(rng, V, m)
     votes, types = enc_votes(list(enumerate(vals)))
-    mode = rng.choice(['name', 'callable'])
+    mode = pick_quota_mode(rng)
     return {'op': 'quota_selector', 'votes': votes, '_types': types, 'n': n, 'quota': qn, '_quota_mode': mode,
             'accept_equal': rng.random() < 0.5, 'on_more': rng.choice(['select', 'select', 'error']), '_tags': tags}
 
@@ -1519,7 +1583,7 @@ def gen_openlist(rng, directed=True, m=None, rich=False, huge=False):
             quota = 'const:' + num_str(Fraction(rng.randint(0, 20), rng.choice([1, 2])))
         else:
             quota = rng.choice(QUOTAS + ['hare', 'hare', 'droop'])
-            qmode = rng.choice(['name', 'callable'])
+        qmode = pick_quota_mode(rng)
     if rich:
         qf, qft = rng.choice(QF_RICH)
         if rng.random() < 0.1:
@@ -1580,7 +1644,7 @@ def gen_decimal_context(rng):
         use_q = rng.random() < 0.4
         p, q = rng.choice([(1, 20), (1, 4), (500001, 10 ** 7), (3, 100)])
         case = {'op': 'openlist', 'n': n, 'list': _shuffled(rng, ids), 'jump_fraction': None, '_jftype': 'F',
-                'quota': None, '_quota_mode': rng.choice(['name', 'callable']), 'quota_fraction': '1', '_qftype': 'i',
+                'quota': None, '_quota_mode': pick_quota_mode(rng), 'quota_fraction': '1', '_qftype': 'i',
                 'take_higher': False, 'accept_equal': rng.random() < 0.5, 'list_precedence': rng.random() < 0.5}
         if use_q:
             case['quota'] = 'droop'
@@ -1753,7 +1817,7 @@ def gen_multi(rng):
             return {'op': 'tiebreak', 'votes': votes, '_types': types, 'n': n, 'list': _shuffled(rng, range(len(vals))),
                     'inner': qn, '_quota_mode': 'name', 'accept_equal': eq, '_tags': ['tiebreak', 'multi']}
         return {'op': 'quota_selector', 'votes': votes, '_types': types, 'n': n, 'quota': qn2,
-                '_quota_mode': rng.choice(['name', 'callable']), 'accept_equal': eq,
+                '_quota_mode': pick_quota_mode(rng), 'accept_equal': eq,
                 'on_more': rng.choice(['select', 'select', 'error']), '_tags': ['quota_selector', 'multi']}
     if kind in ('level_tb', 'level_qs'):
         a, L = rng.randint(0, 2), rng.randint(4, 6)
@@ -1767,7 +1831,7 @@ def gen_multi(rng):
             return {'op': 'tiebreak', 'votes': votes, '_types': types, 'n': a + d, 'list': _shuffled(rng, ids),
                     'inner': inner, '_quota_mode': 'name', 'accept_equal': True, '_tags': ['tiebreak', 'multi']}
         return {'op': 'quota_selector', 'votes': votes, '_types': types, 'n': a + d, 'quota': 'imperiali',
-                '_quota_mode': rng.choice(['name', 'callable']), 'accept_equal': eq, 'on_more': 'select',
+                '_quota_mode': pick_quota_mode(rng), 'accept_equal': eq, 'on_more': 'select',
                 '_tags': ['quota_selector', 'multi']}
     if kind == 'level_break':
         m = rng.randint(5, 8)
@@ -1882,9 +1946,31 @@ def gen_tiebreak(rng):
             'accept_equal': True, '_tags': tags}
     if rng.random() < 0.3:
         case['inner'] = rng.choice(['hare', 'droop', 'hagenbach_bischoff', 'imperiali', 'const:1', 'const:0'])
-        case['_quota_mode'] = rng.choice(['name', 'callable'])
+        case['_quota_mode'] = pick_quota_mode(rng)
         case['accept_equal'] = rng.random() < 0.5
     return case
+
+
+def gen_quota_shape(rng, op, mode):
+    """a class taking a quota function (ThresholdOpenList, QuotaSelector, the QuotaSelector under ListOrderTieBreaker)
+    handed a caller-written callable of shape `mode` (USER_QUOTA_MODES) standing for a library quota or a constant"""
+    if op == 'quota_selector':
+        c = gen_quota_selector(rng)
+    elif op == 'openlist':
+        c = gen_openlist(rng)
+        for _ in range(20):
+            if c.get('quota') is not None:
+                break
+            c = gen_openlist(rng)
+        if c.get('quota') is None:
+            c['quota'] = 'hare'
+    else:
+        c = gen_tiebreak(rng)
+        if c['inner'] == 'plurality':
+            c['inner'] = rng.choice(['hare', 'droop', 'hagenbach_bischoff', 'imperiali', 'const:1'])
+            c['accept_equal'] = rng.random() < 0.5
+    c['_quota_mode'] = mode
+    return c
 
 
 def gen_break(rng):
@@ -1992,6 +2078,10 @@ def _gen(rng, tier):
         yield gen_args(rng)
     for _ in range(200 * scale):
         yield gen_twice(rng)
+    for op in ('openlist', 'quota_selector', 'tiebreak'):
+        for mode in USER_QUOTA_MODES:
+            for _ in range(3 * scale):
+                yield gen_quota_shape(rng, op, mode)
     for _ in range(12 * scale):
         c = gen_decimal_context(rng)
         if c is not None:
@@ -2059,6 +2149,21 @@ def _exhaustive2():
                                    '_tags': ['exhaustive', 'quota_selector']}
                         yield {'op': 'tiebreak', 'votes': votes, '_types': types, 'n': n, 'list': list(range(m)),
                                'inner': qn, '_quota_mode': 'name', 'accept_equal': eq, '_tags': ['exhaustive', 'tiebreak']}
+
+
+def _quota_mode_tags(tags, c, qname):
+    """how the quota function reaches the class: by name, as the library function object, as quota.constant, or as a
+    caller-written callable (quota_by_<shape>, and quota_user:<op> per class taking a quota function)"""
+    mode = c.get('_quota_mode')
+    if mode in USER_QUOTA_MODES:
+        tags.append('quota_by_' + mode)
+        tags.append('quota_user:' + c['op'])
+        if qname.startswith('const:'):
+            tags.append('quota_user_constant')
+    elif qname.startswith('const:'):
+        tags.append('quota_constant')
+    else:
+        tags.append('quota_by_callable' if mode == 'callable' else 'quota_by_name')
 
 
 def _num_tags(tags, value_str, tt, what, on_boundary):
@@ -2264,7 +2369,7 @@ def _posthoc_tags(c):
         votes = fvotes(c['votes'])
         q = quota_value(c['quota'], sum(votes.values()), c['n'])
         on_tag(any(v == q for v in votes.values()), c['accept_equal'])
-        tags.append('quota_by_callable' if c.get('_quota_mode') == 'callable' else 'quota_by_name')
+        _quota_mode_tags(tags, c, c['quota'])
         _multi_tags(tags, votes, q)
         if c['on_more'] == 'select':
             _level_tags(tags, {x: v for x, v in votes.items() if passes(v, q, c['accept_equal'])}, c['n'], 'quota_selector')
@@ -2327,10 +2432,7 @@ def _posthoc_tags(c):
         if c.get('jump_fraction') is not None:
             _num_tags(tags, c['jump_fraction'], c.get('_jftype', 'F'), 'jump_fraction', hit)
         if c.get('quota') is not None:
-            if c['quota'].startswith('const:'):
-                tags.append('quota_constant')
-            else:
-                tags.append('quota_by_callable' if c.get('_quota_mode') == 'callable' else 'quota_by_name')
+            _quota_mode_tags(tags, c, c['quota'])
             qf = Fraction(c['quota_fraction'])
             tags.append('quota_fraction_one' if qf == 1 else 'quota_fraction_half' if qf == Fraction(1, 2) else 'quota_fraction_other')
             _num_tags(tags, c['quota_fraction'], c.get('_qftype', 'F'), 'quota_fraction', hit)
@@ -2358,6 +2460,7 @@ def _posthoc_tags(c):
         if any(i not in c['list'] for i in votes):
             tags.append('off_list')
         if c['inner'] != 'plurality':
+            _quota_mode_tags(tags, c, c['inner'])
             q = quota_value(c['inner'], sum(votes.values()), c['n'])
             votes = {x: v for x, v in votes.items() if passes(v, q, c['accept_equal'])}
         _level_tags(tags, votes, c['n'], 'tiebreak')
@@ -2397,7 +2500,9 @@ RULE = ('[audit dimensions, see AUDIT] Constructed boundary inputs: for t = p/q 
         'CoalitionMemberBracketer, PropertyBracketer (properties dict and getattr path, None evaluators), '
         'PreviousGainThreshold.  Quota selectors with the seven quotas by name and by callable, totals placing a candidate '
         'on the quota.  Open lists of 1-8 members, 1 <= n <= length, every combination of jump_fraction (None/Fraction/'
-        'Decimal/int), quota (None/name/callable/constant), quota_fraction in {1, 1/2}, take_higher, accept_equal, '
+        'Decimal/int), quota (None/name/library function/constant/'
+        'caller-written def, lambda, positional-only def, __call__ object, functools.partial whose parameters are not '
+        'called votes / seats), quota_fraction in {1, 1/2}, take_higher, accept_equal, '
         'list_precedence; list members without votes; rarely a voter outside the list.  ListOrderTieBreaker around '
         'Plurality and QuotaSelector(select); break_by_list on selector-shaped results.  Thorough adds exhaustive small '
         'scopes (thresholds over {0..3}^<=4 on every attainable share; open lists of <=4 members over {0,1,2} votes with '
